@@ -141,6 +141,15 @@ func init() {
 				parseAll([]byte(c))
 			}
 		}
+		if d.Shard == 3%d.NShards {
+			for _, cf := range confusables {
+				for _, t := range []string{"1.2.3-a" + cf, "1.2.3-" + cf, "1.2.3+" + cf, "1." + cf + ".3", cf + ".2.3", "1.2.3-rc." + cf + ".1", "v1.2.3-" + cf + "a"} {
+					parseAll([]byte(t))
+				}
+				d.Do(Ev{"op": "sem.valid", "v": ver("1", "2", "3", "a"+cf, "")})
+				d.Do(Ev{"op": "sem.valid", "v": ver("1", "2", "3", "", cf)})
+			}
+		}
 		nr := 4000
 		if d.Thorough() {
 			nr = 150000
